@@ -682,3 +682,14 @@ Theorem v3_weights_any_index : forall sel hw hwc w wc kt kf kb,
                          (nth (nth j kf 0) (nth (nth i kt 0) wc []) NaN).
 Proof. exact v3_weights_outer. Qed.
 Print Assumptions v3_weights_any_index.
+
+(* defaults that the documentation / the property fix: the kernel divides when `divide` is left out; the averaged flag
+   is the AND of the bin unless flagav is asked for *)
+Theorem kernel_default_direction : forall g a1 a2 w,
+  power_scale_gen g weights_default_divide a1 a2 w = power_scale_gen g true a1 a2 w.
+Proof. intros g a1 a2 w. rewrite default_direction_divides. reflexivity. Qed.
+Print Assumptions kernel_default_direction.
+
+Theorem avg_default_flag_is_and : averager_default_flagav = false.
+Proof. exact default_flagav_is_and. Qed.
+Print Assumptions avg_default_flag_is_and.
